@@ -12,13 +12,19 @@ def PyErr.toString : PyErr → String
 
 instance : ToString PyErr := ⟨PyErr.toString⟩
 
+/-- truncated quotient, kept as a named definition so that proofs about control flow can treat the
+    quotient as opaque -/
+def tquot (a b : Int) : Int := Int.tdiv a b
+/-- floored quotient -/
+def fquot (a b : Int) : Int := Int.fdiv a b
+
 /-- Python `a // b` on ints: floor division, `ZeroDivisionError` for `b = 0`. -/
 def pyFloorDiv (a b : Int) : Except PyErr Int :=
-  if b = 0 then .error .zeroDiv else .ok (Int.fdiv a b)
+  if b = 0 then .error .zeroDiv else .ok (fquot a b)
 
 /-- Python `int(a / b)` on ints: truncation of the true quotient (float rounding not modelled),
     `ZeroDivisionError` for `b = 0`. -/
 def pyTruncDiv (a b : Int) : Except PyErr Int :=
-  if b = 0 then .error .zeroDiv else .ok (Int.tdiv a b)
+  if b = 0 then .error .zeroDiv else .ok (tquot a b)
 
 end Usid
